@@ -1,6 +1,7 @@
 package world
 
 import (
+	"context"
 	"bytes"
 	"crypto"
 	"crypto/x509"
@@ -104,7 +105,17 @@ func (n *Net) RoundTrip(req *http.Request) (*http.Response, error) {
 		return nil, ErrRefused
 	}
 	if b.Delay > 0 {
+		// a request which carries a deadline (on the virtual clock) is given up when the deadline passes
+		if dl, ok := req.Context().Deadline(); ok && vsched.Active() && dl.Before(vsched.Now().Add(b.Delay)) {
+			if wait := dl.Sub(vsched.Now()); wait > 0 {
+				vsched.Sleep(wait)
+			}
+			return nil, fmt.Errorf("%s %q: %w", req.Method, url, context.DeadlineExceeded)
+		}
 		vsched.Sleep(b.Delay)
+	}
+	if err := req.Context().Err(); err != nil {
+		return nil, fmt.Errorf("%s %q: %w", req.Method, url, err)
 	}
 	status, out, err := b.Status, b.Body, b.Err
 	if b.Fn != nil {
